@@ -12,7 +12,7 @@ import (
 // finders, the markup parsers and the two-pass logic. docspec = template id; the
 // members inside a template rotate with the PRNG of the docGen.
 
-const nRichDocs = 20
+const nRichDocs = 21
 
 func pagerHTML(g *docGen, style string, n, k int) string {
 	var sb strings.Builder
@@ -160,6 +160,8 @@ func richDoc(id int, g *docGen) string {
 	case 18: // pager whose links repeat a query key and carry more parameters than the page URL
 		body.WriteString("<div>" + story(3) + `</div><div><a href="/story/view?tag=go&amp;tag=web&amp;pg=1">1</a> <a href="/story/view?tag=go&amp;tag=web&amp;pg=2">2</a> ` +
 			`<a href="/story/view?tag=go&amp;tag=web&amp;pg=3">3</a> <a href="/story/view?pg=4&amp;pg=5">4</a> <a href="/story/view?a=1&amp;pg=5&amp;b=2&amp;b=3">5</a></div>`)
+	case 19: // a pager with gaps on path-component URLs: several pattern candidates share the number list
+		body.WriteString("<div>" + story(3) + `</div><div><a href="/zqt/12/p/1">1</a> <a href="/zqt/12/p/3">3</a> <a href="/zqt/12/p/5">5</a></div>`)
 	default: // a random abstract document through the doc-family concretiser
 		forest := randomForest(r, 14)
 		return g.page(forest, docPlaces[r.Intn(len(docPlaces))])
